@@ -297,6 +297,12 @@ def _check_result(case, lp, rows, t, vols, divided, dividing, stochastic_mode, s
     if vols is not None:
         if len(vols) != nr or np.any(vols <= 0):
             bad("volume_column_incomplete", vols=np.asarray(vols)[:5].tolist(), rows=nr)
+        elif lp["volume"] == "number" or (lp["volume"] == "object" and case["vobj"] == "const"):
+            # a volume given as a number / as a constant volume object is that number on every row
+            if not np.all(vols == case["vnum"]):
+                bad("volume_column_is_not_the_given_volume", vols=np.asarray(vols)[:5].tolist(), given=case["vnum"])
+        elif lp["volume"] == "true" and not np.all(vols == vols[0]):
+            bad("volume_column_changes_without_a_growth_law", vols=np.asarray(vols)[:5].tolist())
     # first row = initial condition with assignment rules applied
     exp = _first_row_expected(case["model"], stochastic_mode)
     got = {s: float(rows[0][species_order.index(s)]) for s in case["model"]["species"]}
